@@ -183,6 +183,16 @@ fn load_relevant_coins<C: ContentAddrStore>(
             };
         }
 
+        // `Transaction::weight` likewise adds up the weights of the transaction's covenants without overflow checks:
+        // refuse a transaction whose covenants weigh 2^128 or more together instead of overflowing when its fee is computed
+        let mut covenants_weight: u128 = 0;
+        for covenant in tx.covenants.iter() {
+            covenants_weight = match covenants_weight.checked_add(covenant_weight_from_bytes(covenant)) {
+                Some(weight) => weight,
+                None => return Err(StateError::MalformedTx),
+            };
+        }
+
         let coins_to_add = output_coins_from_tx(tx, this.height);
         if !coins_to_add.is_empty() {
             accum.extend(coins_to_add);
